@@ -3,6 +3,7 @@ CONSTANTS
   MaxR = 2
   MaxD = 2
   DefKinds <- MCKindsQ
+  DDefKinds <- MCDKinds
   MaxSpell = 2
 SPECIFICATION Spec
 INVARIANT RecordedOnce
